@@ -25,7 +25,7 @@ ASSUMPTIONS = ["closed form uses scipy.stats.multivariate_normal.cdf (bivariate 
                "default L requires a theta cone (ordering complexity beta is only defined there)"]
 N = {"quick": 64, "thorough": 2000}
 REQUIRE = {"quick": {"closed_form_configs": 500, "noise_below_one": 200, "noise_above_one": 60, "incomparable_configs": 100,
-                     "stat_runs": 600, "pareto_of_means_rounds": 300}}
+                     "stat_runs": 600, "pareto_of_means_rounds": 300, "long_pareto_of_means_runs": 20}}
 TIMEOUT = {"quick": 1200, "thorough": 5400}
 
 
@@ -184,9 +184,12 @@ def pareto_of_means(mon, rng):
     mu = rng.normal(size=(K, m))
     if K >= 2 and rng.random() < 0.3:
         mu[1] = mu[0]
-    name = stubs.install_dataset(stubs.grid_inputs(K, 2), mu, exact=True)
-    L = int(rng.integers(1, 12))
+    L = int(rng.integers(1, 12)) if rng.random() < 0.7 else int(rng.integers(55, 130))  # long runs: all observations must keep counting
+    if L > 50:
+        mon.count("long_pareto_of_means_runs")
+        mu = mu * 0.05  # near-ties, so that the set is sensitive to how the means are formed
     noise_var = float(10 ** rng.uniform(-3, 0.5))
+    name = stubs.install_dataset(stubs.grid_inputs(K, 2), mu, exact=True)
     try:
         alg = build(name, order, 0.1, 0.1, noise_var, L=L)
     finally:
